@@ -87,12 +87,26 @@ func (a *batchConn) inspectPendingRequests(checkTime time.Time) {
 	}
 }
 
+// leftoverRetryInterval is how long the send loop waits for a new request before it tries again to send the requests
+// that the concurrency limit left in the builder.
+const leftoverRetryInterval = 10 * time.Millisecond
+
 // fetchAllPendingRequests fetches all pending requests from the channel.
 func (a *batchConn) fetchAllPendingRequests(maxBatchSize int) (headRecvTime time.Time, headArrivalInterval time.Duration) {
 	// Block on the first element.
 	latestReqArriveTime := a.reqBuilder.latestReqArriveTime
 	var headEntry *batchCommandsEntry
+	var retryLeftover <-chan time.Time
+	if a.reqBuilder.len() > 0 {
+		// Requests are left in the builder because the concurrency limit was reached. Look at them again soon even if
+		// no new request arrives, otherwise they are never sent although the capacity has been released.
+		timer := time.NewTimer(leftoverRetryInterval)
+		defer timer.Stop()
+		retryLeftover = timer.C
+	}
 	select {
+	case <-retryLeftover:
+		return time.Now(), 0
 	case headEntry = <-a.batchCommandsCh:
 		if !a.idleDetect.Stop() {
 			<-a.idleDetect.C
